@@ -96,7 +96,8 @@ def count_cases(rng, tier):
                 cap = r.range(3, 5)
                 ops = [["T", K, cap, r.below(2), S.count_ctx(g, ["ref", 0], r.choice([0, 0, 1]))],
                        ["N", 2, ["ref", 0]],
-                       ["N", r.range(2, 4), ["delay", K, short()]],
+                       ["N", r.range(2, 3), ["delay", K, r.choice([["iter", g.fresh(), []], ["samp", g.fresh(), [g.sample() for _ in range(nch - 1)]]])]],
+                       ["N", 2, ["delay", K, short()]],
                        ["U", r.range(3, 5), r.below(3), S.count_ctx(g, ["delay", K, short()], r.choice([0, 1, 2]))],
                        ["I", r.range(2, 4) * nch + r.below(nch), r.below(3), S.count_ctx(g, ["delay", K, short()], r.choice([0, 1]))],
                        ["T", other, r.range(2, 4), r.below(2), ["delay", K, ["ref", 0]]],
